@@ -15,6 +15,21 @@ from pathlib import Path
 REPO = Path("/repo")
 
 
+def corner_docs() -> list[str]:
+    """hand-made documents for branches no spec example or fixture reaches (found with coverage.py)"""
+    return ['![a](/u "t"  \n', '![a](/u "t" x)\n', '![foo][bar\n\n[foo]: /u\n', '![foo][]\n\n[foo]: /u\n', '![foo] [bar]\n\n[foo]: /u\n',
+        '[a]: /u "t" x\n\n[a]\n', "[a]: /u 't'   \n\n[a]\n", '[a](/u "t"  \n', "007. james\n008. bond\n",
+        # lone strikethrough markers moved past s_close, odd runs
+        "~~~~~a~~~~~\n", "~~~a~~ b\n", "a ~~~b~~ ~~c~~~ d\n", "~~a~~~\n",
+        # image / link corner branches
+        "![a](\n", "![a](javascript:x)\n", "![a][nolabel]\n\n[b]: /u\n", "[foo][bar\n\n[foo]: /u\n", "<javascript:alert(1)> <vbscript:x>\n",
+        "[l](<a\\>b>) [m](a\\ b) [n](a\\)b) [o](/u (a(b))\n", "[l](/u (t(u))\n",
+        # tables: escaped pipes, header / body rows at code indentation
+        "|a\\|b|c|\n|-|-|\n|x\\|y|z|\n", "    |a|b|\n|-|-|\n", "|a|b|\n|-|-|\n    |c|d|\n", "|a|b|\n|-|-|\n\nafter\n",
+        # typographer: inch marks
+        '1"" 2" x 3\'\' "q"\n', "```\n", "```\nx\n``"]
+
+
 @lru_cache(maxsize=1)
 def seeds() -> list[str]:
     out: list[str] = []
@@ -34,8 +49,7 @@ def seeds() -> list[str]:
         for m in re.finditer(r"\n\.\n(.*?)\n\.\n(.*?)\n\.\n", "\n" + txt, flags=re.S):
             out.append(m.group(1) + "\n")
     # branches of the implementation that no spec example or fixture reaches (measured with coverage.py)
-    out += ['![a](/u "t"  \n', '![a](/u "t" x)\n', '![foo][bar\n\n[foo]: /u\n', '![foo][]\n\n[foo]: /u\n', '![foo] [bar]\n\n[foo]: /u\n',
-            '[a]: /u "t" x\n\n[a]\n', "[a]: /u 't'   \n\n[a]\n", '[a](/u "t"  \n', "007. james\n008. bond\n"]
+    out += corner_docs()
     if not out:
         out = ["# a\n\n*b* `c`\n\n- d\n> e\n"]
     # de-duplicate, keep order
